@@ -67,6 +67,14 @@ def apply_variant(sources: Dict[str, str], v: dict) -> Optional[Dict[str, str]]:
         from selftest.transforms import flip_else_module
 
         return {k: flip_else_module(t) for k, t in sources.items()}
+    if v.get("global") == "all-together":
+        from selftest.transforms import (flip_else_module, hoist_module, mirror_module, no_else_return_module, noop_module,
+                                         rename_module, swap_module)
+
+        cur = dict(sources)
+        for t in (hoist_module, mirror_module, flip_else_module, noop_module, swap_module, no_else_return_module, rename_module):
+            cur = {k: t(x) for k, x in cur.items()}
+        return cur
     if v.get("global") == "noop":
         from selftest.transforms import noop_module
 
@@ -197,6 +205,8 @@ def run_for(prop: str, seed: int = 0, jobs: int = 16) -> dict:
                      "note": "`assert True` inserted at the start of every function body and every loop body"})
     variants.append({"property": prop, "id": "%s-no-else-after-return" % prop, "kind": "silent", "rule": None, "edits": [], "global": "noelse",
                      "note": "else blocks after a branch that ends in return / raise / continue / break are un-nested"})
+    variants.append({"property": prop, "id": "%s-all-transformations-composed" % prop, "kind": "silent", "rule": None, "edits": [], "global": "all-together",
+                     "note": "extract-variables, mirror-comparisons, flip-else, insert-noop, swap-assignments, no-else-after-return and rename-all-locals applied one after the other"})
     for par in ("even", "odd"):
         variants.append({"property": prop, "id": "%s-rename-locals-%s-functions" % (prop, par), "kind": "silent", "rule": None, "edits": [], "global": "rename-%s" % par,
                          "note": "function-local variables renamed in every other function only (one-sided for sibling implementations)"})
